@@ -28,6 +28,27 @@ def gen_case(rng, tier):
             return ("set", k, m[k], "item")             # no-op rewrite
         return HX.gen_write(rng, m.keys())
 
+    if rng.random() < 0.25:
+        fam = HX.gen_shared_family(rng)
+        if rng.random() < 0.4:
+            for w in fam:
+                HX.apply_model(m, w)
+            ops.append(("batch", fam, None))
+            ops += [("state",), ("regen",)]
+        else:
+            k = rng.randint(0, len(fam))
+            for w in fam[:k]:
+                HX.apply_model(m, w)
+                ops += [w, ("state",), ("regen",)]
+            if fam[k:]:
+                if rng.random() < 0.4:
+                    for w in fam[k:]:
+                        HX.apply_model(m, w)
+                    ops += [("batch", fam[k:], None), ("state",), ("regen",)]
+                else:
+                    for w in fam[k:]:
+                        HX.apply_model(m, w)
+                        ops += [w, ("state",), ("regen",)]
     i = 0
     while i < n:
         r = rng.random()
